@@ -1,4 +1,74 @@
-(* glue between the driver and the extracted property checkers (filled in with Checkers.v) *)
+(* glue between the driver and the extracted property checkers (Checkers.v) *)
 module M = Model
-let run ~pre:_ ~op:_ ~iclass:_ ~xfers:_ ~trace:_ ~post:_ ~gen:_ : (string * string * string) list = []
-let nontrivial ~pre:_ ~op:_ ~iclass:_ ~post:_ : string list = []
+open Conv
+
+let oclass_of = function
+  | "ok" -> M.KOk | "rej" -> M.KRej | "blockok" -> M.KBlockOk | "blockerr" -> M.KBlockErr
+  | "panic" -> M.KPanic | "genok" -> M.KGenOk | "generr" -> M.KGenErr | _ -> M.KDone
+
+let mk ~pre ~op ~iclass ~xfers ~trace ~post ~gen ~fault : M.trans =
+  { M.t_pre = pre; t_op = op; t_class = oclass_of iclass; t_xfers = xfers; t_trace = trace; t_post = post;
+    t_fault = fault; t_gen_valid = (gen = "1") }
+
+(* after a failed block the chain has halted with a partially processed state: only the two properties that
+   speak about failing blocks are evaluated there *)
+let run ~pre ~op ~iclass ~xfers ~trace ~post ~gen ~fault : (string * string * string) list =
+  let t = mk ~pre ~op ~iclass ~xfers ~trace ~post ~gen ~fault in
+  let halted = (iclass = "blockerr" || iclass = "panic") in
+  List.filter_map (fun n ->
+      let i = int_of_n n in
+      if halted && i <> 7 && i <> 17 then None
+      else Some (Printf.sprintf "C%02d" i, Printf.sprintf "c%02d_ok" i, "")) (M.failing t)
+
+let status_in (s : M.state) id = match M.find_auction s id with Some a -> Some a.M.a_status | None -> None
+
+(* tags describing what a step exercised, for the coverage figures in the evidence *)
+let nontrivial ~pre ~op ~iclass ~xfers ~trace ~post ~fault : string list =
+  let tags = ref [] in
+  let add t = tags := t :: !tags in
+  let t = mk ~pre ~op ~iclass ~xfers ~trace ~post ~gen:"" ~fault in
+  List.iter (fun (a, a') ->
+      let nb = List.length (M.bids_of pre a.M.a_id) in
+      let prices = List.sort_uniq compare (List.map (fun b -> string_of_z b.M.b_price) (M.bids_of pre a.M.a_id)) in
+      (match a.M.a_type with
+       | M.Batch ->
+           add "settle_batch";
+           if nb >= 2 then add "settle_batch_2bids";
+           if List.length prices >= 2 then add "settle_batch_2prices";
+           if List.length prices >= 3 then add "settle_batch_3prices";
+           if a'.M.a_matched_price = M.Z0 then add "settle_batch_nothing_sold" else add "settle_batch_sold";
+           if List.length a.M.a_ends > 1 then add "settle_after_extension"
+       | M.FixedPrice ->
+           add "settle_fixed"; if nb >= 2 then add "settle_fixed_2bids"; if nb = 0 then add "settle_fixed_nobids");
+      if a.M.a_scheds = [] then add "settle_no_schedule" else add "settle_with_schedule";
+      if List.length a.M.a_scheds >= 2 then add "settle_multi_schedule") (M.settling t);
+  List.iter (fun (a, a') ->
+      if List.length a'.M.a_ends > List.length a.M.a_ends then add "extend";
+      if a.M.a_status = M.StandBy && a'.M.a_status = M.Started then add "open";
+      if a.M.a_status = M.VestingS && a'.M.a_status = M.Finished then add "finish_vesting") (M.paired t);
+  if List.exists (fun x -> match x.M.x_from with M.Escrow (M.Vesting, _) -> true | _ -> false) xfers then add "release";
+  if fault then add "fault_fired";
+  if M.vetoed pre trace then add "veto";
+  if trace <> [] then add "hook_called";
+  if List.length pre.M.st_listeners >= 2 && trace <> [] then add "hook_multi_listener";
+  (match op, iclass with
+   | M.OTx (M.MCancel _), "ok" -> add "cancel_ok"
+   | M.OTx (M.MCancel _), "rej" -> add "cancel_rej"
+   | M.OTx (M.MPlaceBid (_, id, bt, _, _)), c ->
+       let k = (match int_of_n bt with 1 -> "fixed" | 2 -> "worth" | 3 -> "many" | _ -> "badtype") in
+       add ("bid_" ^ k ^ "_" ^ c);
+       ignore id
+   | M.OTx (M.MModifyBid _), c -> add ("mod_" ^ c)
+   | M.OTx (M.MCreateFixed _), c -> add ("create_fixed_" ^ c)
+   | M.OTx (M.MCreateBatch _), c -> add ("create_batch_" ^ c)
+   | M.OTx (M.MAddAllowed _), c -> add ("addmsg_" ^ c)
+   | M.OTx (M.MUpdateParams _), c -> add ("params_" ^ c)
+   | M.OApiAdd _, c -> add ("apiadd_" ^ c)
+   | M.OApiUpdate _, c -> add ("apiupd_" ^ c)
+   | M.OGenesis, c -> add ("genesis_" ^ c); if pre.M.st_bids <> [] then add "genesis_with_bids";
+       if List.exists (fun a -> a.M.a_type = M.Batch && a.M.a_status = M.Started && List.length a.M.a_ends > 1) pre.M.st_auctions then add "genesis_mid_extension"
+   | M.OSend (_, M.Escrow _, _, _), "ok" -> add "donation"
+   | (M.OBlock _ | M.OFaultBlock _), c -> add ("block_" ^ c)
+   | _ -> ());
+  if List.length (List.filter (fun a -> a.M.a_status = M.Started) pre.M.st_auctions) >= 2 then add "two_open_auctions";
+  List.sort_uniq compare !tags
